@@ -26,7 +26,7 @@ pub fn rewrite(msgs: &[Msg]) -> Vec<Msg> {
         for u in &m.units {
             let a = gen::absolute(&ctx, u);
             ctx = gen::ctx_after(&ctx, u);
-            out.push(Msg { units: vec![a], semi: false, lead: vec![] });
+            out.push(Msg { units: vec![a], semi: false, lead: vec![], trail: vec![] });
         }
     }
     out
